@@ -25,12 +25,19 @@ type FilterPlan struct {
 	// are moved to the pre-sub-bucket location (an upgraded installation's
 	// database; see Stores.LegacyIndex).
 	Legacy bool
+	// Family names the workload family of a plan that does not come from
+	// FilterPlanFromSeed ("" = the original families); see multicp.go.
+	Family string `json:",omitempty"`
 }
 
 // PeerBehaviour describes one scripted peer of a filter session.
 type PeerBehaviour struct {
 	Lies   []netsim.Lie
 	Silent bool
+	// LiarSeed, when non-zero, seeds this peer's falsified material instead
+	// of plan seed + peer index: liars with the same lies and the same
+	// LiarSeed serve byte-identical false values (a coalition).
+	LiarSeed int64 `json:",omitempty"`
 }
 
 func (b PeerBehaviour) Honest() bool { return len(b.Lies) == 0 && !b.Silent }
@@ -46,6 +53,66 @@ type FilterSession struct {
 	OnStep func(fs *FilterSession, st *StepObs)
 
 	injDone chan struct{} // closed when an injected concurrent reorg finished
+
+	// Installed holds the hard-coded filter-header checkpoints installed for
+	// this session (height -> value), nil if none.
+	Installed map[uint32]chainhash.Hash
+	// ResolveOffenders: the peers whose checkpoint list, as handed to the
+	// most recent resolveConflict call, contradicted an installed hard-coded
+	// checkpoint.
+	ResolveOffenders map[string]CPOffence
+	// Measured: lists handed to resolveConflict that contradicted a
+	// hard-coded checkpoint / that did so while agreeing with the NEWEST
+	// hard-coded checkpoint they cover.
+	CPListsContradicting, CPListsOlderOnly int
+	// gate, when set, replaces the immediate installation of the hard-coded
+	// checkpoints (see RunMultiCPFilter).
+	gate func(install func())
+}
+
+// CPOffence describes how a served checkpoint list contradicted the installed
+// hard-coded filter-header checkpoints.
+type CPOffence struct {
+	Lowest       uint32 // lowest contradicted hard-coded height
+	NewestAgrees bool   // the list equals the newest hard-coded checkpoint it covers
+	Lists        int    // number of lists handed to that resolveConflict call
+}
+
+// noteResolveInput compares the lists about to be handed to resolveConflict
+// with the installed hard-coded checkpoints.
+func (fs *FilterSession) noteResolveInput(lists map[string][]*chainhash.Hash) {
+	fs.ResolveOffenders = nil
+	if len(fs.Installed) == 0 {
+		return
+	}
+	for addr, l := range lists {
+		lowest, newest, newestOK := uint32(0), uint32(0), true
+		for i, cp := range l {
+			h := uint32(i+1) * wire.CFCheckptInterval
+			want, ok := fs.Installed[h]
+			if !ok {
+				continue
+			}
+			bad := cp == nil || *cp != want
+			if bad && lowest == 0 {
+				lowest = h
+			}
+			if h > newest {
+				newest, newestOK = h, !bad
+			}
+		}
+		if lowest == 0 {
+			continue
+		}
+		if fs.ResolveOffenders == nil {
+			fs.ResolveOffenders = map[string]CPOffence{}
+		}
+		fs.ResolveOffenders[addr] = CPOffence{lowest, newestOK, len(lists)}
+		fs.CPListsContradicting++
+		if newestOK {
+			fs.CPListsOlderOnly++
+		}
+	}
 }
 
 // syncHeaders feeds the path to tip to the client from peer 0 (the sync
@@ -159,6 +226,7 @@ func (fs *FilterSession) Round() (progress bool, err error) {
 				capped[p] = append(capped[p], cp)
 			}
 		}
+		fs.noteResolveInput(capped)
 		var good []*chainhash.Hash
 		if _, err := fs.step("cf.resolve", fmt.Sprintf("peers=%d", len(capped)), func() {
 			good, _ = fs.BM.ResolveConflict(capped)
@@ -191,6 +259,9 @@ func (fs *FilterSession) Round() (progress bool, err error) {
 // callers serialise filter sessions that use it.
 func (fs *FilterSession) InstallFilterCheckpoints(tip *chaingen.Node) {
 	if len(fs.Plan.FilterCPs) == 0 {
+		if fs.gate != nil {
+			fs.gate(func() {})
+		}
 		return
 	}
 	m := map[uint32]*chainhash.Hash{}
@@ -205,12 +276,20 @@ func (fs *FilterSession) InstallFilterCheckpoints(tip *chaingen.Node) {
 		}
 		m[uint32(h)] = &fh
 	}
+	fs.Installed = map[uint32]chainhash.Hash{}
+	for h, v := range m {
+		fs.Installed[h] = *v
+	}
+	if fs.gate != nil {
+		fs.gate(func() { chainsync.VerifSetFilterCheckpoints(fs.G.P.Net, m) })
+		return
+	}
 	chainsync.VerifSetFilterCheckpoints(fs.G.P.Net, m)
 }
 
 // UninstallFilterCheckpoints removes them again.
 func (fs *FilterSession) UninstallFilterCheckpoints() {
-	if len(fs.Plan.FilterCPs) > 0 {
+	if len(fs.Plan.FilterCPs) > 0 && fs.gate == nil {
 		chainsync.VerifSetFilterCheckpoints(fs.G.P.Net, nil)
 	}
 }
